@@ -1,7 +1,7 @@
 //! Running simulations: one run from one seed, replay of an explicit operation
 //! list, minimisation, worker batches and the merged result.
 
-use crate::workload::{Gen, Prop, plan};
+use crate::workload::{Gen, Limits, Prop, plan_limited};
 use crate::prng::{Prng, run_seed};
 use crate::registry::Registry;
 use crate::world::{Anchors, Op, RunCfg, Stats, Violation, World};
@@ -135,9 +135,13 @@ pub fn execute(
 
 /// One simulated run: everything derives from `seed`.
 pub fn run_one(reg: &Registry, anchors: &Anchors, prop: Prop, seed: u64, known: &Known) -> RunResult {
+    run_one_limited(reg, anchors, prop, seed, known, &Limits::default())
+}
+
+pub fn run_one_limited(reg: &Registry, anchors: &Anchors, prop: Prop, seed: u64, known: &Known, lim: &Limits) -> RunResult {
     let stale0 = stale_reads();
     let mut rng = Prng::new(seed);
-    let pl = plan(reg, prop, &mut rng);
+    let pl = plan_limited(reg, prop, &mut rng, lim);
     let mut w = World::new(reg, anchors, pl.cfg.clone(), seed);
     let mut g = Gen::new();
     let mut ops = Vec::with_capacity(pl.len);
